@@ -25,6 +25,7 @@
 -/
 import LDEval.Properties.C13Options
 import LDEval.Model.Trace
+import LDEval.Proofs.AuditTrace
 
 namespace LD.C13
 open LD.Trace
@@ -347,6 +348,366 @@ example :
     (exec exBad ⟨fun _ => 3, fun _ => 0, fun _ => []⟩ [1, 0]).obs 0 = [5] := by
   refine ⟨?_, ?_⟩ <;> decide
 
+/-! ## Strengthened statements (theorem audit) -/
+
+/-! ### 5. The trace machine connected to the evaluator model (audit finding #44)
+
+Sections 1–4 are about an abstract machine.  This section instantiates it with the evaluator:
+`Proofs/AuditTrace.lean` defines, for a world `w` (data-provider content, big-segment provider) and a
+list of calls (each with its own flag, context, options), the system `sysOf w calls` whose thread `t`
+runs `traceOf w t (evaluate (envOf w calls[t]) calls[t].flag)` — one read of a shared location for
+every flag lookup, segment lookup and big-segment query that the *real model evaluation* records in
+its observation, one write to a location owned by thread `t` for every update of its per-call state.
+The initial memory `initOf w` holds, at the location of each key, the identity of the item the
+store/provider returns for it (`valFlag`, `valSeg`, `valBs`; `findFlag_eq_decode` etc. show that this
+value determines the answer).  Proved, for every world, every list of calls and every interleaving:
+
+* `sysOf_readOnlyShared` (in `AuditTrace`): the system obeys the discipline;
+* `eval_no_conflict`: no two concurrent evaluations have a conflicting pair of accesses;
+* `eval_shared_unchanged`: the store/provider image in memory is never modified;
+* `concurrent_evaluations_see_sequential_answers`: each evaluation is handed, for its lookups in
+  order, exactly the answers the store/provider give it when it runs alone;
+* `eval_complete_runs_agree`: any two complete interleavings give every evaluation the same reads.
+
+What remains OUTSIDE Lean:
+
+(a) That the memory accesses of the *Go* evaluator are those of `traceOf` — reads of flags, segments
+    and the provider only, writes only to the `evaluationScope` / the caller's stack — is the
+    harness's write-set obligation (deep comparison of all shared inputs before/after) plus the Go
+    race detector on concurrent runs.  Lean proves the discipline for the MODEL, whose only writes
+    are to `St` by construction (`evaluate` is a pure function; `St` is created by the call).
+(b) Programs of the machine are static lists of accesses.  In the evaluator, which key is looked up
+    next depends on the values read before.  This dependency is not expressed by the machine: the
+    trace of thread `t` is computed from its *sequential* evaluation.  That is harmless precisely
+    because of `concurrent_evaluations_see_sequential_answers` — the values handed to the thread
+    are the sequential ones at every step, so a value-dependent program would take the same path —
+    but the induction "same answers so far ⇒ same next access" is carried out informally here, not
+    inside the machine.  Likewise `Obs` orders accesses within a class (flag lookups, segment
+    lookups, provider queries) but not between classes; `traceOf` lists class after class.  No
+    theorem below depends on the order of a thread's accesses.
+(c) Memory is sequentially consistent: no Go memory model, no scheduler fairness (completeness of a
+    schedule is a hypothesis), and provider implementations (`DataProvider`,
+    `BigSegmentProvider`) are assumed to be thread-safe functions of the key.
+-/
+
+/-- No two concurrent (model) evaluations race: whatever the flags, contexts, options and the
+number of calls, there is no pair of accesses of two different calls to one location of which one
+is a write.  For the Go code: `Evaluate` may be called from any number of goroutines on one
+evaluator without synchronisation, as far as the model's accesses go. -/
+theorem eval_no_conflict (w : World) (calls : List CallIn) : ¬ Conflict (sysOf w calls) :=
+  no_conflict _ (sysOf_readOnlyShared w calls)
+
+/-- One thread running alone in a disciplined system whose reads are all of shared locations: after
+`k` of its ops its program counter is `k`, it has observed the initial contents of the locations
+read so far, and shared memory still has its initial content. -/
+theorem solo_prefix (s : Sys) (h : ReadOnlyShared s) (init : Loc → Val) (t : Tid)
+    (hr : ∀ l, Op.read l ∈ s.progs t → s.shared l = true) :
+    ∀ k, k ≤ (s.progs t).length →
+      (solo s init t k).pc t = k ∧
+      (solo s init t k).obs t = (readsOf ((s.progs t).take k)).map init ∧
+      ∀ l, s.shared l = true → (solo s init t k).mem l = init l := by
+  intro k
+  induction k with
+  | zero => intro _; exact ⟨rfl, by simp [solo, readsOf], fun _ _ => rfl⟩
+  | succ k ih =>
+    intro hk
+    have hlt : k < (s.progs t).length := hk
+    obtain ⟨hpc, hobs, hmem⟩ := ih (Nat.le_of_lt hlt)
+    have hsolo : solo s init t (k + 1) = step s (solo s init t k) t := rfl
+    have hget : (s.progs t)[k]? = some (s.progs t)[k] := List.getElem?_eq_getElem hlt
+    have hop : (s.progs t)[(solo s init t k).pc t]? = some (s.progs t)[k] := by rw [hpc]; exact hget
+    have hin : (s.progs t)[k] ∈ s.progs t := List.getElem_mem hlt
+    have htake : (s.progs t).take (k + 1) = (s.progs t).take k ++ [(s.progs t)[k]] := by
+      rw [List.take_add_one, hget]; rfl
+    rw [hsolo, htake, readsOf_append, List.map_append, ← hobs]
+    generalize (s.progs t)[k] = op at hop hin
+    cases op with
+    | read l =>
+      have hst : step s (solo s init t k) t =
+          { mem := (solo s init t k).mem
+            pc := fun u => if u = t then (solo s init t k).pc t + 1 else (solo s init t k).pc u
+            obs := fun u => if u = t then (solo s init t k).obs t ++ [(solo s init t k).mem l]
+                      else (solo s init t k).obs u } := by
+        simp only [step, hop]
+      rw [hst]
+      refine ⟨?_, ?_, hmem⟩
+      · show (if t = t then (solo s init t k).pc t + 1 else _) = k + 1
+        rw [if_pos rfl, hpc]
+      · show (if t = t then (solo s init t k).obs t ++ [(solo s init t k).mem l] else _) = _
+        rw [if_pos rfl, hmem l (hr l hin)]; rfl
+    | write l v =>
+      have hst : step s (solo s init t k) t =
+          { mem := fun m => if m = l then v else (solo s init t k).mem m
+            pc := fun u => if u = t then (solo s init t k).pc t + 1 else (solo s init t k).pc u
+            obs := (solo s init t k).obs } := by
+        simp only [step, hop]
+      have hd := h t _ hin
+      simp only at hd
+      rw [hst]
+      refine ⟨?_, ?_, ?_⟩
+      · show (if t = t then (solo s init t k).pc t + 1 else _) = k + 1
+        rw [if_pos rfl, hpc]
+      · show (solo s init t k).obs t = (solo s init t k).obs t ++ List.map init (readsOf [Op.write l v])
+        simp [readsOf]
+      · intro l' hl'
+        show (if l' = l then v else (solo s init t k).mem l') = init l'
+        have : l' ≠ l := by intro e; subst e; rw [hd.1] at hl'; cases hl'
+        rw [if_neg this]; exact hmem l' hl'
+
+/-- **What a thread running alone observes**, in a disciplined system in which it reads shared
+locations only: the initial contents of the locations it reads, in program order — its own writes
+never come back to it.  (General fact about the machine; instantiated below with evaluations.) -/
+theorem solo_obs_eq_reads (s : Sys) (h : ReadOnlyShared s) (init : Loc → Val) (t : Tid)
+    (hr : ∀ l, Op.read l ∈ s.progs t → s.shared l = true) :
+    (solo s init t (s.progs t).length).obs t = (readsOf (s.progs t)).map init := by
+  have := (solo_prefix s h init t hr (s.progs t).length (Nat.le_refl _)).2.1
+  rwa [List.take_length] at this
+
+/-- **Concurrent evaluations are handed the sequential answers.**  Take any world, any list of
+calls, any schedule that lets every call finish, and any call `c = calls[t]` whose looked-up keys
+lie in the key universe.  Then what thread `t` reads from the shared memory during the concurrent
+run is, lookup by lookup and in order: the store's answer `valFlag w k` for each of its flag
+lookups, the store's answer `valSeg w k` for each of its segment lookups, the provider's answer
+`valBs w k` for each of its big-segment queries — exactly what the sequential evaluation
+`evaluate (envOf w c) c.flag` is given.  For the Go code: under every interleaving of goroutines
+each `Evaluate` sees the same flags, segments and memberships as if it ran alone, hence (being a
+function of them, C12) returns the same result. -/
+theorem concurrent_evaluations_see_sequential_answers (w : World) (calls : List CallIn)
+    (sched : List Tid) (hfin : ∀ t, ((sysOf w calls).progs t).length ≤ sched.count t)
+    (t : Tid) (c : CallIn) (hc : calls[t]? = some c)
+    (hf : ∀ k ∈ (obsOf w c).flagLookups, k ∈ w.keys)
+    (hs : ∀ k ∈ (obsOf w c).segLookups, k ∈ w.keys)
+    (hb : ∀ k ∈ (obsOf w c).bsQueries, k ∈ w.keys) :
+    (exec (sysOf w calls) ⟨initOf w, fun _ => 0, fun _ => []⟩ sched).obs t =
+      (obsOf w c).flagLookups.map (valFlag w) ++ (obsOf w c).segLookups.map (valSeg w) ++
+        (obsOf w c).bsQueries.map (valBs w) := by
+  rw [(complete_run_sequential _ (sysOf_readOnlyShared w calls) (initOf w) sched hfin t).2,
+    solo_obs_eq_reads _ (sysOf_readOnlyShared w calls) (initOf w) t (sysOf_reads_shared w calls t),
+    sysOf_progs_some w hc]
+  exact map_initOf_reads w t _ hf hs hb
+
+/-- The same without the hypothesis on the key universe: for the world whose universe is the set of
+keys the given calls look up (`World.covering`), every call of the list gets the sequential answers
+under every complete schedule. -/
+theorem concurrent_evaluations_see_sequential_answers_covering (store : Store)
+    (bs : Option BSProvider) (calls : List CallIn) (sched : List Tid)
+    (hfin : ∀ t, ((sysOf (World.covering store bs calls) calls).progs t).length ≤ sched.count t)
+    (t : Tid) (c : CallIn) (hc : calls[t]? = some c) :
+    let w := World.covering store bs calls
+    (exec (sysOf w calls) ⟨initOf w, fun _ => 0, fun _ => []⟩ sched).obs t =
+      (obsOf w c).flagLookups.map (valFlag w) ++ (obsOf w c).segLookups.map (valSeg w) ++
+        (obsOf w c).bsQueries.map (valBs w) := by
+  intro w
+  obtain ⟨hf, hs, hb⟩ := covering_covers store bs calls hc
+  exact concurrent_evaluations_see_sequential_answers w calls sched hfin t c hc hf hs hb
+
+/-- Also for partial runs: under every schedule whatsoever (complete or not, fair or not) the values
+thread `t` has read so far are the initial contents — the store's and provider's answers — of the
+first locations its program reads.  No evaluation ever sees a value written by another one. -/
+theorem concurrent_evaluations_prefix (w : World) (calls : List CallIn) (sched : List Tid)
+    (t : Tid) :
+    let st := exec (sysOf w calls) ⟨initOf w, fun _ => 0, fun _ => []⟩ sched
+    st.obs t = (readsOf (((sysOf w calls).progs t).take (st.pc t))).map (initOf w) ∧
+      st.pc t = min (sched.count t) ((sysOf w calls).progs t).length := by
+  intro st
+  obtain ⟨h1, h2⟩ := readonly_noninterference _ (sysOf_readOnlyShared w calls) (initOf w) sched t
+  refine ⟨?_, h2⟩
+  have hle : st.pc t ≤ ((sysOf w calls).progs t).length := by
+    show (exec (sysOf w calls) ⟨initOf w, fun _ => 0, fun _ => []⟩ sched).pc t ≤ _
+    rw [h2]; exact Nat.min_le_right _ _
+  exact h1.trans (solo_prefix _ (sysOf_readOnlyShared w calls) (initOf w) t
+    (sysOf_reads_shared w calls t) _ hle).2.1
+
+/-- The image of the store and of the provider in memory is never modified by any number of
+concurrent evaluations under any schedule.  For the Go code (model level): `Evaluate` leaves the
+flags, the segments and the provider's data as it found them, also when called concurrently. -/
+theorem eval_shared_unchanged (w : World) (calls : List CallIn) (sched : List Tid) (l : Loc)
+    (hl : sharedLoc l = true) :
+    (exec (sysOf w calls) ⟨initOf w, fun _ => 0, fun _ => []⟩ sched).mem l = initOf w l :=
+  shared_unchanged _ (sysOf_readOnlyShared w calls) (initOf w) sched l hl
+
+/-- In particular the flag filed under `k` is, after any concurrent run, still the one the store
+returned at the start. -/
+theorem eval_flag_unchanged (w : World) (calls : List CallIn) (sched : List Tid) (k : String)
+    (hk : k ∈ w.keys) :
+    (exec (sysOf w calls) ⟨initOf w, fun _ => 0, fun _ => []⟩ sched).mem (flagLoc w k) =
+      valFlag w k := by
+  rw [eval_shared_unchanged w calls sched _ (shared_flagLoc w k), initOf_flagLoc w hk]
+
+/-- Any two schedules that let every evaluation finish hand every evaluation the same values, those
+of its run alone.  For the Go code: the outcome of a batch of concurrent `Evaluate` calls does not
+depend on how the goroutines are interleaved. -/
+theorem eval_complete_runs_agree (w : World) (calls : List CallIn) (sched₁ sched₂ : List Tid)
+    (hfin₁ : ∀ t, ((sysOf w calls).progs t).length ≤ sched₁.count t)
+    (hfin₂ : ∀ t, ((sysOf w calls).progs t).length ≤ sched₂.count t) (t : Tid) :
+    (exec (sysOf w calls) ⟨initOf w, fun _ => 0, fun _ => []⟩ sched₁).obs t =
+        (solo (sysOf w calls) (initOf w) t ((sysOf w calls).progs t).length).obs t ∧
+    (exec (sysOf w calls) ⟨initOf w, fun _ => 0, fun _ => []⟩ sched₂).obs t =
+        (exec (sysOf w calls) ⟨initOf w, fun _ => 0, fun _ => []⟩ sched₁).obs t :=
+  complete_runs_agree _ (sysOf_readOnlyShared w calls) (initOf w) sched₁ sched₂ hfin₁ hfin₂ t
+
+/-- The private state of one evaluation is untouched by the others: a private location of thread `t`
+holds, under every schedule, what it holds when `t` runs alone for as many steps as it was
+scheduled.  For the Go code: the events, log lines, membership cache and status that one `Evaluate`
+call accumulates are its own — the recorder of each call sees only that call's events
+(audit finding #45, at the level of the access model). -/
+theorem eval_private_state_isolated (w : World) (calls : List CallIn) (sched : List Tid)
+    (t : Tid) (j : Nat) :
+    let st := exec (sysOf w calls) ⟨initOf w, fun _ => 0, fun _ => []⟩ sched
+    st.mem (priv t j) = (solo (sysOf w calls) (initOf w) t (st.pc t)).mem (priv t j) :=
+  readonly_noninterference_mem _ (sysOf_readOnlyShared w calls) (initOf w) sched t (priv t j)
+    (Or.inr (owner_priv t j))
+
+/-! ### 6. Non-vacuity: two concurrent evaluations of a flag with two prerequisites -/
+
+/-- A flag of the store: on, one variation. -/
+def exStoreFlag (k : String) : Flag :=
+  { key := k, on := true, fallthrough := { variation := some 0 }, variations := [.bool true] }
+
+/-- The evaluated flag: prerequisites `a` and `b`. -/
+def exRoot : Flag :=
+  { key := "root", on := true, prerequisites := [⟨"a", 0⟩, ⟨"b", 0⟩],
+    fallthrough := { variation := some 0 }, variations := [.bool true] }
+
+def exWorld : World :=
+  { store := { flags := [("a", exStoreFlag "a"), ("b", exStoreFlag "b")] }, bs := none,
+    keys := ["a", "b"] }
+
+def exCall (u : String) : CallIn :=
+  { opts := {}, ctx := .single { kind := "user", key := u }, rx := fun _ _ => none, flag := exRoot }
+
+/-- Two calls, for two different users. -/
+def exCalls : List CallIn := [exCall "u1", exCall "u2"]
+
+def exSys : Sys := sysOf exWorld exCalls
+
+/-- The real evaluations look up both prerequisites, in order, and emit two prerequisite events. -/
+example :
+    (obsOf exWorld (exCall "u1")).flagLookups = ["a", "b"] ∧
+    (obsOf exWorld (exCall "u2")).flagLookups = ["a", "b"] ∧
+    (obsOf exWorld (exCall "u1")).events.length = 2 ∧
+    (obsOf exWorld (exCall "u1")).result.detail.reason = Reason.fallthrough ∧
+    (obsOf exWorld (exCall "u1")).outcome = .done := by decide
+
+/-- Their traces: two lookups (a write to the own trace and a read of the flag each) and two event
+writes. -/
+example :
+    exSys.progs 0 =
+      [.write (priv 0 0) 1, .read (flagLoc exWorld "a"), .write (priv 0 0) 1,
+        .read (flagLoc exWorld "b"), .write (priv 0 5) 1, .write (priv 0 5) 1] ∧
+    (exSys.progs 0).length = 6 ∧ (exSys.progs 1).length = 6 ∧ exSys.progs 2 = [] := by decide
+
+/-- The store's answers: `a` is entry 1, `b` is entry 2, anything else is absent. -/
+example : valFlag exWorld "a" = 1 ∧ valFlag exWorld "b" = 2 ∧ valFlag exWorld "c" = 0 ∧
+    exWorld.store.findFlag "b" = decodeVal exWorld.store.flags 2 := by
+  refine ⟨by decide, by decide, by decide, findFlag_eq_decode exWorld "b"⟩
+
+/-- Two different complete interleavings, computed: both evaluations read `[1, 2]` (entry `a`, then
+entry `b`) in both. -/
+example :
+    (exec exSys (State.init (initOf exWorld)) [0, 1, 0, 1, 0, 1, 0, 1, 0, 1, 0, 1]).obs 0 = [1, 2] ∧
+    (exec exSys (State.init (initOf exWorld)) [0, 1, 0, 1, 0, 1, 0, 1, 0, 1, 0, 1]).obs 1 = [1, 2] ∧
+    (exec exSys (State.init (initOf exWorld)) [1, 1, 1, 0, 0, 1, 1, 0, 0, 0, 1, 0]).obs 0 = [1, 2] ∧
+    (exec exSys (State.init (initOf exWorld)) [1, 1, 1, 0, 0, 1, 1, 0, 0, 0, 1, 0]).obs 1 = [1, 2] := by
+  refine ⟨?_, ?_, ?_, ?_⟩ <;> decide
+
+/-- Both schedules are complete, so the general theorem applies to them (hypotheses of
+`concurrent_evaluations_see_sequential_answers` are satisfiable by a non-trivial object). -/
+example : ∀ t, (exSys.progs t).length ≤ [0, 1, 0, 1, 0, 1, 0, 1, 0, 1, 0, 1].count t := by
+  intro t
+  match t with
+  | 0 => decide
+  | 1 => decide
+  | t + 2 => exact Nat.zero_le _
+
+/-- The general theorem instantiated: under EVERY complete schedule call 1 reads `[1, 2]`. -/
+example (sched : List Tid) (hfin : ∀ t, (exSys.progs t).length ≤ sched.count t) :
+    (exec exSys (State.init (initOf exWorld)) sched).obs 1 = [1, 2] := by
+  have := concurrent_evaluations_see_sequential_answers exWorld exCalls sched hfin 1 (exCall "u2")
+    rfl (by decide) (by decide) (by decide)
+  rw [show exSys = sysOf exWorld exCalls from rfl]
+  rw [this]; decide
+
+/-- The two evaluations do not race, and the store image is intact afterwards. -/
+example : ¬ Conflict exSys := eval_no_conflict exWorld exCalls
+
+/-- Negative control: the same system except that call 1 additionally *writes* the shared location of
+flag `a` (an evaluator that "fixes up" a flag in place). -/
+def exSysBad : Sys :=
+  { exSys with
+    progs := fun t => if t = 1 then .write (flagLoc exWorld "a") 9 :: exSys.progs 1 else exSys.progs t }
+
+/-- It violates the discipline … -/
+example : ¬ ReadOnlyShared exSysBad := by
+  intro h
+  have h1 := h 1 (.write (flagLoc exWorld "a") 9) (by simp [exSysBad])
+  have h2 : sharedLoc (flagLoc exWorld "a") = false := h1.1
+  rw [shared_flagLoc] at h2
+  cases h2
+
+/-- … has a race … -/
+example : Conflict exSysBad :=
+  ⟨1, 0, flagLoc exWorld "a", by decide, ⟨9, by simp [exSysBad]⟩, Or.inl (by decide)⟩
+
+/-- … and what call 0 reads now depends on the schedule: `[1, 2]` if it runs first, `[9, 2]` if the
+other call's write comes first. -/
+example :
+    (exec exSysBad (State.init (initOf exWorld)) [0, 0, 0, 0, 0, 0, 1, 1, 1, 1, 1, 1, 1]).obs 0 = [1, 2] ∧
+    (exec exSysBad (State.init (initOf exWorld)) [1, 0, 0, 0, 0, 0, 0, 1, 1, 1, 1, 1, 1]).obs 0 = [9, 2] := by
+  refine ⟨?_, ?_⟩ <;> decide
+
+/-! Second instance: a segment lookup and a big-segment query per call (the segment and provider
+locations, `valSeg`, `valBs`). -/
+
+def exSeg : Segment :=
+  { key := "seg", unbounded := true, unboundedContextKind := "user", generation := some 1 }
+
+/-- The provider knows `u0` and `u1`; `u2` gets the default answer. -/
+def exProv : BSProvider :=
+  { table := [("u0", {}), ("u1", { membership := some [("seg.g1", true)], status := some .stale })] }
+
+def exSegFlag : Flag :=
+  { key := "f", on := true, variations := [.bool false, .bool true],
+    rules := [{ vr := { variation := some 1 },
+                clauses := [{ op := "segmentMatch", values := [.str "seg"] }] }],
+    fallthrough := { variation := some 0 } }
+
+def exWorld2 : World :=
+  { store := { segments := [("seg", exSeg)] }, bs := some exProv, keys := ["seg", "u1", "u2"] }
+
+def exCall2 (u : String) : CallIn :=
+  { opts := {}, ctx := .single { kind := "user", key := u }, rx := fun _ _ => none,
+    flag := exSegFlag }
+
+def exCalls2 : List CallIn := [exCall2 "u1", exCall2 "u2"]
+
+/-- The real evaluations: each looks up the segment and queries the provider for its own context
+key; `u1` is a member (rule match), `u2` is not (fallthrough). -/
+example :
+    (obsOf exWorld2 (exCall2 "u1")).segLookups = ["seg"] ∧
+    (obsOf exWorld2 (exCall2 "u1")).bsQueries = ["u1"] ∧
+    (obsOf exWorld2 (exCall2 "u1")).memChecks = [("u1", "seg.g1")] ∧
+    (obsOf exWorld2 (exCall2 "u1")).result.detail.index = some 1 ∧
+    (obsOf exWorld2 (exCall2 "u2")).bsQueries = ["u2"] ∧
+    (obsOf exWorld2 (exCall2 "u2")).result.detail.index = some 0 := by decide
+
+/-- An interleaving, computed: call 0 reads segment entry 1 and provider entry 2 (`u1`), call 1
+reads segment entry 1 and the provider's default (0). -/
+example :
+    (exec (sysOf exWorld2 exCalls2) (State.init (initOf exWorld2))
+      [0, 1, 1, 0, 0, 1, 1, 0, 0, 1, 1, 0, 0, 1]).obs 0 = [1, 2] ∧
+    (exec (sysOf exWorld2 exCalls2) (State.init (initOf exWorld2))
+      [0, 1, 1, 0, 0, 1, 1, 0, 0, 1, 1, 0, 0, 1]).obs 1 = [1, 0] := by
+  refine ⟨?_, ?_⟩ <;> decide
+
+/-- … and so under EVERY complete schedule, by the general theorem. -/
+example (sched : List Tid)
+    (hfin : ∀ t, ((sysOf exWorld2 exCalls2).progs t).length ≤ sched.count t) :
+    (exec (sysOf exWorld2 exCalls2) (State.init (initOf exWorld2)) sched).obs 0 = [1, 2] := by
+  rw [concurrent_evaluations_see_sequential_answers exWorld2 exCalls2 sched hfin 0 (exCall2 "u1")
+    rfl (by decide) (by decide) (by decide)]
+  decide
+
 end LD.C13
 
 #print axioms LD.C13.no_conflict
@@ -355,3 +716,13 @@ end LD.C13
 #print axioms LD.C13.shared_unchanged
 #print axioms LD.C13.complete_run_sequential
 #print axioms LD.C13.complete_runs_agree
+#print axioms LD.C13.eval_no_conflict
+#print axioms LD.C13.solo_prefix
+#print axioms LD.C13.solo_obs_eq_reads
+#print axioms LD.C13.concurrent_evaluations_see_sequential_answers
+#print axioms LD.C13.concurrent_evaluations_see_sequential_answers_covering
+#print axioms LD.C13.concurrent_evaluations_prefix
+#print axioms LD.C13.eval_shared_unchanged
+#print axioms LD.C13.eval_flag_unchanged
+#print axioms LD.C13.eval_complete_runs_agree
+#print axioms LD.C13.eval_private_state_isolated
